@@ -45,7 +45,7 @@ pub fn replay(payload: &serde_json::Value, prop: &str) {
     let mut cfg = cfg;
     cfg.force_nonce = prop == "C19";
     let monitors = Monitors { c03: prop == "C03", c04: prop == "C04", c13: prop == "C13", c15: false, c19: prop == "C19" };
-    rt::run(crate::hsim::replay_verbose(&cfg, monitors, &hist));
+    rt::run(crate::hsim::replay_verbose(&cfg, monitors, &hist, &crate::hsim::NoDriver));
 }
 
 pub fn run(prop: &str) {
@@ -61,7 +61,7 @@ pub fn run(prop: &str) {
     let mut counters: BTreeMap<&'static str, u64> = BTreeMap::new();
     let mut exhaustive = true;
     let mut caps = vec![];
-    let mut found = vec![];
+    let mut found: Vec<mc::Violation> = vec![];
     let mut terminals = 0usize;
     for (name, cfg0) in &wl {
         let mut cfg = cfg0.clone();
@@ -103,6 +103,29 @@ pub fn run(prop: &str) {
                 found.push(v);
             }
         }
+    }
+    // C03 / C13 are also decided against a malicious peer / on-path attacker
+    if prop == "C03" || prop == "C13" {
+        let ak: u32 = std::env::var("VERIF_AK").ok().and_then(|v| v.parse().ok()).unwrap_or(if thorough { 5 } else { 4 });
+        let (st, vio, samples) = crate::attack::explore(prop, thorough, if thorough { 1800.0 } else { 40.0 }, ak);
+        rep.set("attacker_worlds_states", st.states);
+        rep.set("attacker_worlds_executions", st.executions);
+        rep.set("attacker_move_bound", ak as u64);
+        states += st.states;
+        trans += st.transitions;
+        execs += st.executions;
+        steps += st.steps;
+        if !st.exhaustive {
+            exhaustive = false;
+            caps.push(format!("attacker worlds: {}", st.cap.unwrap_or_default()));
+        }
+        for (k, v) in st.counters {
+            *counters.entry(k).or_insert(0) += v;
+        }
+        for s in samples.into_iter().take(2) {
+            rep.sample(s);
+        }
+        found.extend(vio);
     }
     rep.set("states", states);
     rep.set("transitions", trans);
